@@ -249,12 +249,13 @@ def gen_permeance_value(rng, lo=1e-6, hi=1.0):
 
 def permeance_in_units(value_kg, units, component):
     """a Permeance expressed in `units` that is physically `value_kg` kg/(m2 h kPa)"""
+    label = _type_label(units)  # alternately the library's constant and an equal, non-identical string
     if units == Units.kg_m2_h_kPa:
-        return Permeance(value=value_kg, units=units)
+        return Permeance(value=value_kg, units=label)
     si = value_kg / (component.molecular_weight * 3.6e3)
     if units == Units.SI:
-        return Permeance(value=si, units=units)
-    return Permeance(value=si / 3.35e-10, units=units)
+        return Permeance(value=si, units=label)
+    return Permeance(value=si / 3.35e-10, units=label)
 
 
 def gen_experiments(rng, component, n, stated, on_line=True, units=None, t_lo=283.0, t_hi=390.0, name="exp"):
@@ -330,6 +331,8 @@ def gen_permeate(rng, mode, mixture, t_feed, comp, model="NRTL"):
     if mode == "T":
         return rng.uniform(120.0, t_feed), None
     if mode == "Tnear":
+        if rng.random() < 0.03:
+            return t_feed, None  # exactly at equilibrium temperature: the upper end of the stated range
         return t_feed - abs(rng.gauss(0, 8.0)) - 1e-3, None
     if mode == "P0":
         return None, 0.0
@@ -451,6 +454,8 @@ class FluxCase:
     def __init__(self, rng, modes=None, models=("NRTL", "UNIQUAC"), p_membrane=0.15, p_synth=0.4, edge=0.001):
         self.mix, self.mdesc = gen_mixture(rng, p_synth)
         self.model = rng.choice(list(models))
+        if rng.random() < 0.4:
+            self.model = fresh_str(self.model)  # an equal string from elsewhere (config file, CLI), not the literal
         self.membrane = gen_membrane(rng, self.mix)
         self.pv = Pervaporation(self.membrane, self.mix)
         self.t_feed = pick_temperature(rng, 273.0, 400.0)
